@@ -100,7 +100,8 @@ static void op_tagname_range(int nt, char **t) {
     printf("tagname_range default=%s", d ? d : "null");
     for (long long z = lo; z <= hi; z++) {
         const char *s;
-        LIB(s = libwifi_get_tag_name((int) z));
+        if (((z - lo) & 0xffff) == 0) dirty_stack();
+        LIB_FAST(s = libwifi_get_tag_name((int) z));
         if (s != d && (s == NULL || d == NULL || strcmp(s, d) != 0)) printf(" %lld=%s", z, s ? s : "null");
     }
 }
